@@ -3,7 +3,7 @@
    Proofs: Lib/Kernel.v, KernelSeg.v, KernelRing.v, KernelPoly.v, C07/GenTie.v, C07/FloatLink.v, C07/CCWProofs.v. *)
 From Coq Require Import ZArith List Bool Floats.SpecFloat.
 From GeosV.Lib Require Import KernelDefs Kernel KernelSeg KernelRing KernelPoly.
-From GeosV.C07 Require Import CCWDefs CCWProofs GenTie FloatLink SurfTie.
+From GeosV.C07 Require Import CCWDefs CCWProofs GenTie FloatLink SurfTie FilterCoeff.
 From GeosV.Lib Require GenPreludeZ GenPreludeF.
 From GeosV.C07 Require PreludeLI PreludeSurf.
 From GeosV.C07 Require RunDefs.    (* entry points of the extracted models: kept in the dependency cone so that they are rebuilt with the generated units *)
@@ -45,6 +45,16 @@ Theorem C07_filter_antisym_b64 : forall pax pay pbx pby pcx pcy : spec_float,
   (let r := K_filterF.c_orientationIndexFilter_6 pax pay pbx pby pcx pcy in if r =? 2 then 2 else - r).
 Proof. exact filter_antisym. Qed.
 Print Assumptions C07_filter_antisym_b64.
+(* FULL STATEMENT NOT PROVED (soundness of the filter on ALL finite doubles without under/overflow: a non-FAILURE answer is the sign of
+   the exact determinant — Ozaki et al. 2016, Theorem 3.1, for every coefficient >= theta = 3u - (phi - 22)u^2, u = 2^-53).
+   Proved, on the constant as it stands in the C++ source (the generated definition K_filterF.lit_0): the generated function IS that
+   filter with lit_0 as coefficient, and theta <= lit_0 < theta + 2^-104. Missing: the analytic theorem itself. Covered instead by the
+   danger-band stream of props/C07.py (triples on which the double determinant has the wrong sign with |det| up to 2.9u|detsum|). *)
+Theorem C07_filter_coeff_partial :
+  (forall pax pay pbx pby pcx pcy, K_filterF.c_orientationIndexFilter_6 pax pay pbx pby pcx pcy = filter_model K_filterF.lit_0 pax pay pbx pby pcx pcy) /\
+  (exists n, sf_scaled K_filterF.lit_0 106 = Some n /\ theta_num <= n < theta_num + 4).
+Proof. exact (conj filter_shape filter_coeff_ge_theta). Qed.
+Print Assumptions C07_filter_coeff_partial.
 (* FULL STATEMENT NOT PROVED (the double-double fall-back):  on the same inputs
      K_orientationIndexF.g_orientationIndexF (ofZ p1x) (ofZ p1y) (ofZ p2x) (ofZ p2y) (ofZ qx) (ofZ qy) = orient (p1x,p1y) (p2x,p2y) (qx,qy).
    Proved: the filter half above. Missing: exactness of DD::selfAdd / selfMultiply (TwoSum, Dekker) on these inputs.
